@@ -615,7 +615,13 @@ func c37NormalisationDefect(e, n, path string, me, mn bool) (string, string) {
 		fixed := append([]string(nil), comps...)
 		for i := 1; i < len(comps); i++ {
 			if strings.HasPrefix(comps[i], "**") && comps[i] != "**" {
-				if comps[i-1] == "**" {
+				// directly after a "**" component, or after "**" and some "*"
+				// components (the package reorders "/**/*/" to "/*/**/" first)
+				j := i - 1
+				for j > 1 && comps[j] == "*" {
+					j--
+				}
+				if comps[j] == "**" {
 					afterDS = true
 				}
 				if strings.Trim(comps[i], "*") == "" && len(comps[i])%2 == 0 {
@@ -645,7 +651,11 @@ func c37NormalisationDefect(e, n, path string, me, mn bool) (string, string) {
 		// matches what the part before it matches (the directory itself).
 		tail6 := false
 		if k := len(fixed); k >= 3 && fixed[k-1] == "*" && fixed[k-2] == "**" && !me && strings.HasSuffix(n2, "/**") {
-			if base := strings.Join(fixed[:k-2], "/"); base != "" && match(base) && match(n2) {
+			j := k - 2
+			for j > 1 && fixed[j-1] == "**" {
+				j-- // "/**/**/*" means the same as "/**/*"
+			}
+			if base := strings.Join(fixed[:j], "/"); base != "" && match(base) && match(n2) {
 				tail6 = true
 			}
 		}
